@@ -60,7 +60,7 @@ func handleSet(params internal.HandlerFuncParams) ([]byte, error) {
 			if oldValue != nil && !isScalarValue(oldValue) {
 				return nil, fmt.Errorf("value at key %s is not a string", key)
 			}
-			res = []byte(fmt.Sprintf("+%v\r\n", oldValue))
+			res = bulkStringResponse(oldValue)
 		}
 	}
 
@@ -140,7 +140,7 @@ func handleGet(params internal.HandlerFuncParams) ([]byte, error) {
 		return nil, fmt.Errorf("value at key %s is not a string", key)
 	}
 
-	return []byte(fmt.Sprintf("+%v\r\n", value)), nil
+	return bulkStringResponse(value), nil
 }
 
 func handleMGet(params internal.HandlerFuncParams) ([]byte, error) {
@@ -741,7 +741,7 @@ func handleRandomkey(params internal.HandlerFuncParams) ([]byte, error) {
 
 	key := params.Randomkey(params.Context)
 
-	return []byte(fmt.Sprintf("+%v\r\n", key)), nil
+	return bulkStringResponse(key), nil
 }
 
 func handleGetdel(params internal.HandlerFuncParams) ([]byte, error) {
@@ -766,7 +766,7 @@ func handleGetdel(params internal.HandlerFuncParams) ([]byte, error) {
 		return nil, err
 	}
 
-	return []byte(fmt.Sprintf("+%v\r\n", value)), nil
+	return bulkStringResponse(value), nil
 }
 
 func handleGetex(params internal.HandlerFuncParams) ([]byte, error) {
@@ -793,7 +793,7 @@ func handleGetex(params internal.HandlerFuncParams) ([]byte, error) {
 
 	// Handle no expire options provided
 	if cmdLen == 2 {
-		return []byte(fmt.Sprintf("+%v\r\n", value)), nil
+		return bulkStringResponse(value), nil
 	}
 
 	// Handle persist
@@ -802,12 +802,12 @@ func handleGetex(params internal.HandlerFuncParams) ([]byte, error) {
 	if exCommand == "PERSIST" {
 		// getValues will update key access so no need here
 		params.SetExpiry(params.Context, exkey, time.Time{}, false)
-		return []byte(fmt.Sprintf("+%v\r\n", value)), nil
+		return bulkStringResponse(value), nil
 	}
 
 	// Handle exipre command passed but no time provided
 	if cmdLen == 3 {
-		return []byte(fmt.Sprintf("+%v\r\n", value)), nil
+		return bulkStringResponse(value), nil
 	}
 
 	// Extract time
@@ -835,7 +835,7 @@ func handleGetex(params internal.HandlerFuncParams) ([]byte, error) {
 
 	params.SetExpiry(params.Context, exkey, expireAt, false)
 
-	return []byte(fmt.Sprintf("+%v\r\n", value)), nil
+	return bulkStringResponse(value), nil
 
 }
 
